@@ -29,6 +29,7 @@ the loop).
 3. files: `export_demux_file` (the capture file holding only the packet blocks of one connection, any container).
 -/
 import TLX.Lemmas.ExportDemux
+import TLX.Props.ExportInputs2
 set_option linter.unusedSimpArgs false
 set_option linter.unusedVariables false
 namespace TLX.Props.ExportDemux
@@ -136,5 +137,110 @@ theorem export_demux (prior : Prior) (args : Args) (o : Opts) (ho : optsOf args 
       (tlsFrames H P info o fk (only keep C)).flatten ++ (quicFrames mask H P info o fk (only keep C)).flatten)) := by
   refine ⟨?_, quic_frames_by_conn mask H P info o fk C lab hsep, fun keep => framesFrom_ok_quic mask H P info prior args fk _ o ho⟩
   rw [framesFrom_ok_quic mask H P info prior args fk C o ho, tls_frames_by_flow]
+
+section Files
+open TLX.Props.ExportInputs TLX.Props.ExportInputs2 TLX.Ingest
+open TLX.Spec.Containers (Zip)
+
+/-! ## 3. files -/
+
+/-- what `only keep` does to one item -/
+def itemKeep (keep : Pkt → Bool) : Item Keylog.Key → Bool
+  | .dsb _ => true
+  | .frame p => keep p
+
+/-- choosing packet blocks of the file (`keepIt`, on what the reader yields) that are the frames `keep` chooses -/
+theorem keptOf_only (keepIt : Container.Item → Bool) (keep : Pkt → Bool) (its : List Container.Item) :
+    ∀ X : List (Item Keylog.Key), X.length = its.length → (∀ ix ∈ its.zip X, keepIt ix.1 = itemKeep keep ix.2) →
+      keptOf keepIt its X = only keep X := by
+  induction its with
+  | nil => intro X hl _; cases X with | nil => rfl | cons _ _ => simp at hl
+  | cons it its ih =>
+    intro X hl h
+    cases X with
+    | nil => simp at hl
+    | cons x X =>
+      have h0 := h (it, x) (by simp)
+      have ht := ih X (by simpa using hl) (fun ix hix => h ix (by simp [hix]))
+      simp only [keptOf, h0, ht]
+      cases x with
+      | dsb k => simp [itemKeep, only]
+      | frame p => simp only [itemKeep, only_cons_frame]; rfl
+
+/-- **C04, file to file.** `capC`: a capture the run reads to the end (`hC`); `capK`: a capture file — either container —
+    whose reader yields just the blocks `keepIt` keeps, namely all secrets blocks and the packet blocks of the frames
+    `keep` chooses (`hsel`; e.g. one connection). Then `capK` is read to the end too, and the run on `capK` hands the writer
+    EXACTLY what the main loop makes of the items of `capC` restricted by `only keep` (with the time stamps, MAC addresses …
+    of `capC`'s table): the renumbering of the packets behind the removed blocks changes nothing. -/
+theorem export_demux_file (prior : Prior) (args : Args) (legacy legacy' : Bool) (kl : Option Keylog.Str)
+    (capC capK : Bytes) (its : List Container.Item) (keepIt : Container.Item → Bool) (keep : Pkt → Bool)
+    (hrC : Container.readPrefix legacy capC = .ok (its, none))
+    (hrK : Container.readPrefix legacy' capK = .ok (its.filter keepIt, none))
+    (X : List (Item Keylog.Key)) (IS : List (Nat × Pipeline.Info))
+    (hC : go Keylog.srcHexClass args.checksumTest 0 its = .ok (X, IS))
+    (hsel : ∀ ix ∈ its.zip X, keepIt ix.1 = itemKeep keep ix.2) :
+    ∃ XK ISK,
+      Ingest.itemsWith Keylog.srcHexClass args.checksumTest legacy capC = .ok (X, IS) ∧
+      Ingest.itemsWith Keylog.srcHexClass args.checksumTest legacy' capK = .ok (XK, ISK) ∧
+      framesFrom mask H P prior args (fileKeysOf kl) XK (Ingest.lookup ISK) =
+        framesFrom mask H P prior args (fileKeysOf kl) (only keep X) (Ingest.lookup IS) := by
+  obtain ⟨XK, ISK, g1, g2⟩ := go_filter args.checksumTest keepIt its 0 0 X IS hC
+  rw [keptOf_only keepIt keep its X (go_length _ its 0 X IS hC) hsel] at g2
+  refine ⟨XK, ISK, ?_, ?_, (framesFrom_alike mask H P _ _ prior args _ g2).symm⟩
+  · unfold Ingest.itemsWith; rw [hrC]; simp only [hC]
+  · unfold Ingest.itemsWith; rw [hrK]; simp only [g1]
+
+/-- … as a statement about the two PROGRAM RUNS: the output file of the run on the one-connection capture file is the
+    serialisation of the frames the loop makes of the restricted items of the full capture. -/
+theorem export_demux_file_run (args : Args) (legacy legacy' : Bool) (kl : Option Keylog.Str)
+    (capC capK : Bytes) (its : List Container.Item) (keepIt : Container.Item → Bool) (keep : Pkt → Bool)
+    (hrC : Container.readPrefix legacy capC = .ok (its, none))
+    (hrK : Container.readPrefix legacy' capK = .ok (its.filter keepIt, none))
+    (X : List (Item Keylog.Key)) (IS : List (Nat × Pipeline.Info))
+    (hC : go Keylog.srcHexClass args.checksumTest 0 its = .ok (X, IS))
+    (hsel : ∀ ix ∈ its.zip X, keepIt ix.1 = itemKeep keep ix.2)
+    (hopt : optionsBad (freshState : Prior) args = false) :
+    exportFile mask H P args legacy kl capC =
+      ExportInputs.finish (framesFrom mask H P freshState args (fileKeysOf kl) X (Ingest.lookup IS)) ∧
+    exportFile mask H P args legacy' kl capK =
+      ExportInputs.finish (framesFrom mask H P freshState args (fileKeysOf kl) (only keep X) (Ingest.lookup IS)) := by
+  obtain ⟨XK, ISK, h1, h2, h3⟩ := export_demux_file mask H P freshState args legacy legacy' kl capC capK its keepIt keep
+    hrC hrK X IS hC hsel
+  rw [exportFile_stages, exportFile_stages, hopt, h1, h2]
+  simp only [Bool.false_eq_true, if_false, h3, and_self]
+
+section Encoder
+open TLX.Spec.Containers TLX.Props.C12
+
+/-- the events of the capture whose block `keepIt` keeps -/
+def evKeep (v : Variant) (keepIt : Container.Item → Bool) (ev : Ev) : Bool :=
+  match scale v ev with
+  | some it => keepIt it
+  | none => true
+
+/-- … for the independent container encoder: the capture re-encoded with only the chosen connection's packet blocks (and
+    all secrets blocks), any container variant: both reader hypotheses are discharged. -/
+theorem export_demux_encoded (args : Args) (kl : Option Keylog.Str) (v : Variant) (evs : List Ev)
+    (keepIt : Container.Item → Bool) (keep : Pkt → Bool)
+    (hwf : v.WF evs) (hwf' : v.WF (evs.filter (evKeep v keepIt)))
+    (X : List (Item Keylog.Key)) (IS : List (Nat × Pipeline.Info))
+    (hC : go Keylog.srcHexClass args.checksumTest 0 (evs.filterMap (scale v)) = .ok (X, IS))
+    (hsel : ∀ ix ∈ (evs.filterMap (scale v)).zip X, keepIt ix.1 = itemKeep keep ix.2)
+    (hopt : optionsBad (freshState : Prior) args = false) :
+    exportFile mask H P args v.isLegacy kl (encode v evs) =
+      ExportInputs.finish (framesFrom mask H P freshState args (fileKeysOf kl) X (Ingest.lookup IS)) ∧
+    exportFile mask H P args v.isLegacy kl (encode v (evs.filter (evKeep v keepIt))) =
+      ExportInputs.finish (framesFrom mask H P freshState args (fileKeysOf kl) (only keep X) (Ingest.lookup IS)) := by
+  have r1 := readPrefix_of_read _ _ _ (reader_roundtrip v evs hwf)
+  have r2 := readPrefix_of_read _ _ _ (reader_roundtrip v _ hwf')
+  have : (evs.filter (evKeep v keepIt)).filterMap (scale v) = (evs.filterMap (scale v)).filter keepIt :=
+    filterMap_filter_comm (scale v) keepIt (evKeep v keepIt)
+      (fun ev => by unfold evKeep; cases scale v ev <;> rfl) evs
+  rw [this] at r2
+  exact export_demux_file_run mask H P args _ _ kl _ _ _ keepIt keep r1 r2 X IS hC hsel hopt
+
+end Encoder
+
+end Files
 
 end TLX.Props.ExportDemux
